@@ -314,6 +314,11 @@ func (fr *Frame) doLookup(x *ssa.Lookup, st *State) Val {
 		val.L = append(val.L, ex.vc.define("mapval", Ite(has, raw, z)))
 	}
 	ex.typed(st, val)
+	if isPointer(mt.Elem()) && len(val.L) == 1 {
+		// like a field load: a pointer read from a map denotes a pre-existing object whose
+		// declared invariants hold
+		fr.assumeObjInv(st, val, mt.Elem(), st.reach)
+	}
 	if x.CommaOk {
 		return Val{T: x.Type(), L: append(append([]Term{}, val.L...), ex.vc.define("mapok", has))}
 	}
